@@ -230,23 +230,6 @@ theorem stage2_spec [Sqrt α] (P : Prog α) (mufx miu alpha beta : α) (hb0 : 0 
         (mul_nonneg hs1 hb0) h
       exact ⟨h1, le_trans h2 (by nlinarith), h3, h4⟩
 
-/-- the state a failed stage 2 leaves behind is the `update` of some trial point (or the incoming one when no trial
-    was made) -/
-theorem stage2_none [Sqrt α] (P : Prog α) (mufx miu alpha beta : α) (x u v dx du dv : List α) (r0 : α) :
-    ∀ (k : Nat) (s1 : α) (st st' : St α),
-      stage2 P mufx miu alpha beta x u v dx du dv r0 k s1 st = (none, st') →
-      st' = st ∨ ∃ s stp, st' = update P mufx miu (move x s dx) (move u s du) (move v s dv) stp
-  | 0, _, _, _, h => by
-    simp only [stage2, Prod.mk.injEq, true_and] at h
-    exact Or.inl h.symm
-  | k + 1, s1, st, st', h => by
-    simp only [stage2] at h
-    split at h
-    · simp at h
-    · rcases stage2_none P mufx miu alpha beta x u v dx du dv r0 k (s1 * beta) _ st' h with h' | h'
-      · exact Or.inr ⟨s1, st, h'⟩
-      · exact Or.inr h'
-
 /-- `G x < h` is kept along the segment between two points where it holds -/
 theorem slack_interp : ∀ (G : List (List α)) (h x dx : List α) (s1 s2 : α), x.length = dx.length →
     (∀ a ∈ vsub (mv G x) h, a < 0) → (∀ a ∈ vsub (mv G (move x s1 dx)) h, a < 0) → 0 ≤ s2 → s2 ≤ s1 →
